@@ -201,7 +201,7 @@ theorem ping_assumptions_accounted : pingAssumptions = [
 /-! ### non-vacuity: the regenerated code runs -/
 
 /-- one call on the initial table: registered under identifier 1, counter 2; the reply wakes it; nil is returned -/
-example :
+theorem regenerated_ping_runs :
     let s0 := Ping.init icmpTable_id0
     let (s1, k1) := (Session_ping 0 {} {} 0).stepD s0 .tau
     let (s2, k2) := k1.stepD s1 (.ret none)
@@ -212,7 +212,7 @@ example :
       ([(1, 0)], 2, [], true, 1, [], some none) := by rfl
 
 /-- identifier 65535 is followed by 0, and the waiter registered under 0 is woken like any other -/
-example :
+theorem regenerated_ping_wraps :
     let s0 := Ping.init 65535
     let (s1, _) := (Session_ping 7 {} {} 0).stepD s0 .tau
     let (s2, _) := (Session_Ping6 8 {} {} 0).stepD s1 .tau
